@@ -9,6 +9,7 @@ import (
 	"strconv"
 	"strings"
 	"sync"
+	"sync/atomic"
 	"testing/synctest"
 	"time"
 
@@ -89,6 +90,7 @@ type Sched struct {
 	hooks       []func(*StepInfo)
 	start       time.Time
 	draining    bool
+	drainWaits  atomic.Int64
 	panics      []string
 	WriterPendR int            // RWMutex reader arrived while a writer was pending
 	own         map[string]int // scheduling steps taken by each task (its own progress, independent of fairness)
@@ -171,6 +173,16 @@ func (s *Sched) Yield(point string) { s.yield("", point) }
 func (s *Sched) lockWait(m any, kind string) {
 	t := s.me()
 	if t == nil || s.draining {
+		if s.draining {
+			// free-running at the end of a run: wait in fake time, so that a waiter behind a holder that is stuck
+			// for good (a deadlock the run has already reported) does not spin and keep the bubble from settling;
+			// after 10 simulated seconds of such waits the waiter gives up and stays blocked
+			if s.drainWaits.Add(1) > 100000 {
+				select {}
+			}
+			time.Sleep(100 * time.Microsecond)
+			return
+		}
 		runtime.Gosched()
 		return
 	}
